@@ -7,6 +7,16 @@ VERIF = os.path.dirname(os.path.dirname(os.path.abspath(__file__)))
 
 # pid -> (technique, level text, level_note, design_ref)
 CLAIMED = {
+    "C02": ("formula extraction: abstract interpretation of each constraint/parameter builder (AST -> sympy terms, all status/isinstance paths "
+            "enumerated, no solver) compared as closed formulas with the documented laws; finite truth tables / region evaluation of status "
+            "properties and check-valve / pump conditions by partial evaluation",
+            "Decides that the equations registered for every link type and status are the documented head-flow relations (closed => q = 0, "
+            "orientation, H-W + minor loss odd and increasing, breakpoint C0/C1 agreement of smoothing polynomials with constants.py, pump and "
+            "valve laws, coefficient formulas and their update triggers), that effective status is the documented function of user/internal "
+            "status and that check valves close on any reverse flow beyond tolerance.",
+            "Does not decide that the reported solution satisfies the equations (needs the Newton solver and the compiled evaluator, see C15/C16), "
+            "the curve_fit quality of >=3-point pump curves, the monotonicity of the head-pump smoothing cubic (checked at run time by WNTR) or "
+            "the complete PRV/PSV status automaton. Trusts sympy normal forms and sa/symx.py.", "DESIGN.md §4 C02"),
     "C14": ("registry-invariant analysis over the AST: add_usage/remove_usage pairing tables, typed-subset add/discard set comparison, "
             "statement-order (must-precede) rules in __delitem__, view-accessor resolution",
             "Decides, for every mutating registry operation, that it preserves the invariant 'all views agree' (usage pairing per registry and tag, "
